@@ -130,6 +130,41 @@ def check_simple_modifiers(case):
     return None
 
 
+REDUNDANT = [("time", "HH:mm '('hh')'"), ("time", "H '/' h tt"), ("time", "hh tt '='HH:mm:ss"), ("time", "HH tt"), ("time", "H h"), ("time", "HH:mm:ss t"),
+             ("datetime", "uuuu-MM-dd HH:mm '('h tt')'"), ("datetime", "uuuu-MM-dd'T'HH:mm '('hh')'"),
+             ("date", "uuuu-MM-dd '('MMMM')'"), ("date", "dd MMM MM uuuu"), ("date", "dddd dd MMMM uuuu"), ("date", "ddd uuuu-MM-dd"),
+             ("date", "yyyy g uuuu-MM-dd"), ("date", "yy uuuu-MM-dd"), ("datetime", "dddd uuuu-MM-dd HH:mm"),
+             ("annual", "MM MMMM dd"), ("annual", "MMM/MM/dd")]
+
+
+def check_redundant_fields(case):
+    """patterns that write one component twice (H and h, MM and MMMM, day and day-of-week, yyyy and uuuu): the two
+    writings of every value agree with each other when read back (C07: format -> parse is the identity)"""
+    P, T = _P(), _T()
+    kind, text = case
+    cul = _cultures()[0]
+    if kind == "time":
+        pat = T.LocalTimePattern.create(text, cul)
+        vals = [P.LocalTime(h, m, 0) for h in range(24) for m in ((0, 7, 59) if "mm" in text else (0,))]
+    elif kind == "datetime":
+        pat = T.LocalDateTimePattern.create(text, cul)
+        vals = [P.LocalDateTime(2021, 3, d, h, m, 0) for h in range(24) for m in (0, 59) for d in (1, 14, 31)]
+    elif kind == "date":
+        pat = T.LocalDatePattern.create(text, cul)
+        vals = [P.LocalDate(y, m, d) for y in (1999, 2000, 2024, 2100) for m in range(1, 13) for d in (1, 15, 28)] + [P.LocalDate(2024, 2, 29), P.LocalDate(2000, 2, 29)]
+    else:
+        pat = T.AnnualDatePattern.create(text, cul)
+        vals = [P.AnnualDate(m, d) for m in range(1, 13) for d in (1, 28)] + [P.AnnualDate(2, 29), P.AnnualDate(1, 31), P.AnnualDate(12, 31)]
+    for v in vals:
+        txt = pat.format(v)
+        r = pat.parse(txt)
+        if not r.success:
+            return {"key": "roundtrip-redundant-fields", "what": f"{kind} pattern {text!r}: {v!r} is written {txt!r}, which the pattern rejects: {r.exception}"}
+        if r.value != v:
+            return {"key": "roundtrip-redundant-fields", "what": f"{kind} pattern {text!r}: {v!r} is written {txt!r} and read back as {r.value!r}"}
+    return None
+
+
 def check_bclformat(case):
     P, T = _P(), _T()
     from pyoda_time._compatibility._culture_info import CultureInfo
@@ -226,6 +261,75 @@ def check_emptyampm(case):
     return None
 
 
+META_TAILS = ["{", "}", "{}", "{0}", "{1}", "{x}", "{0!r}", "{:>10}", "%s", "%d", "%(a)s", "%", "$x", "${x}", "\\", "{{", "}}"]
+
+
+def check_format_meta(case):
+    """a text with characters that mean something to str.format / % / string.Template, at every position of a valid text:
+    parse never raises, a failure carries UnparsableValueError and its message can be read (C08)"""
+    P, T = _P(), _T()
+    ty, spec, meta = case
+    val, PT = {"time": (P.LocalTime(13, 5, 9), T.LocalTimePattern), "date": (P.LocalDate(2024, 2, 29), T.LocalDatePattern),
+               "datetime": (P.LocalDateTime(2024, 2, 29, 13, 5, 9), T.LocalDateTimePattern),
+               "offset": (P.Offset.from_hours_and_minutes(5, 30), T.OffsetPattern),
+               "duration": (P.Duration.from_seconds(93784), T.DurationPattern),
+               "annual": (P.AnnualDate(2, 29), T.AnnualDatePattern),
+               "instant": (P.Instant.from_utc(2024, 2, 29, 13, 5, 9), T.InstantPattern)}[ty]
+    try:
+        pat = PT.create_with_invariant_culture(spec)
+    except Exception:  # noqa: BLE001
+        return None
+    good = pat.format(val)
+    for k in sorted({0, 1, len(good) // 2, len(good) - 1, len(good)}):
+        if k < 0 or k > len(good):
+            continue
+        for txt in (good[:k] + meta + good[k:], good[:k] + meta + good[k + 1:]):
+            try:
+                r = pat.parse(txt)
+                if not r.success:
+                    e = r.exception
+                    str(e)
+                    if not isinstance(e, T.UnparsableValueError):
+                        return {"key": "parse-failure-wrong-exception", "what": f"{ty} pattern {spec!r}: parse({txt!r}) failed with {type(e).__name__}, not UnparsableValueError"}
+                    try:
+                        r.value
+                        return {"key": "failure-value-readable", "what": f"{ty} pattern {spec!r}: parse({txt!r}) failed but .value did not raise"}
+                    except T.UnparsableValueError:
+                        pass
+            except Exception as e:  # noqa: BLE001
+                return {"key": "parse-raises@format-meta", "what": f"{ty} pattern {spec!r}: parse({txt!r}) raised {type(e).__name__}: {e} (valid text {good!r} with {meta!r} at {k})"}
+    return None
+
+
+def check_hour24_last_day(case):
+    """24:00 on the last (and first) representable day of every calendar, calendar given by the template or by the c
+    specifier: parse never raises; on the day before the last it is the next midnight (C08)"""
+    P, T = _P(), _T()
+    cal_id, how = case
+    cal = P.CalendarSystem.for_id(cal_id)
+    # the greatest date of the maximum year (the year need not end with its highest month number: Hebrew scriptural)
+    last = max(P.LocalDate(cal.max_year, m, cal.get_days_in_month(cal.max_year, m), cal) for m in range(1, cal.get_months_in_year(cal.max_year) + 1))
+    before = last.plus_days(-1)
+    if how == "template":
+        pat = T.LocalDateTimePattern.create("uuuu-MM-dd'T'HH:mm:ss", _cultures()[0], P.LocalDateTime(2000, 1, 1, 0, 0, 0).with_calendar(cal))
+        mk = lambda d: f"{d.year:04d}-{d.month:02d}-{d.day:02d}T24:00:00"  # noqa: E731
+    else:
+        pat = T.LocalDateTimePattern.create_with_invariant_culture("uuuu-MM-dd'T'HH:mm:ss c")
+        mk = lambda d: f"{d.year:04d}-{d.month:02d}-{d.day:02d}T24:00:00 {cal.id}"  # noqa: E731
+    for d, want in ((last, None), (before, last)):
+        txt = mk(d)
+        try:
+            r = pat.parse(txt)
+        except Exception as e:  # noqa: BLE001
+            return {"key": "parse-raises@hour24-range-end", "what": f"LocalDateTimePattern ({how}, calendar {cal.id}): parse({txt!r}) raised {type(e).__name__}: {e}"}
+        if want is not None:
+            if not (r.success and r.value.date == want and r.value.nanosecond_of_day == 0):
+                return {"key": "hour24-not-next-midnight", "what": f"LocalDateTimePattern ({how}, calendar {cal.id}): parse({txt!r}) gave {r.value if r.success else r.exception!r}, expected midnight of {want!r}"}
+        elif r.success:
+            return {"key": "hour24-past-range-end-accepted", "what": f"LocalDateTimePattern ({how}, calendar {cal.id}): parse({txt!r}) succeeded with {r.value!r} although the next day does not exist"}
+    return None
+
+
 def cases_c07(ctx):
     rng = ctx.rng
     mod, bcl = [], []
@@ -257,3 +361,13 @@ def cases_c08(ctx):
                                     ("datetime", ["uuuu-MM-dd mm:ss tt", "uuuu-MM-dd tt", "uuuu-MM-dd hh tt"])) for t in ts for h in (0, 2, 11, 12, 13, 23)]
     rng.shuffle(ann)
     return ann[:ctx.scale(120, len(ann))], amp
+
+
+def cases_c08_more(ctx):
+    P = _P()
+    specs = [("time", "HH:mm:ss"), ("time", "t"), ("date", "uuuu-MM-dd"), ("date", "D"), ("datetime", "uuuu-MM-dd'T'HH:mm:ss"), ("datetime", "G"),
+             ("offset", "+HH:mm"), ("offset", "g"), ("duration", "-D:hh:mm:ss"), ("duration", "o"), ("annual", "MM-dd"), ("annual", "G"),
+             ("instant", "uuuu-MM-dd'T'HH:mm:ss'Z'"), ("instant", "g")]
+    meta = [(ty, sp, m) for ty, sp in specs for m in META_TAILS]
+    h24 = [(i, how) for i in P.CalendarSystem.ids for how in ("template", "c")]
+    return meta, h24
